@@ -835,17 +835,7 @@ func (c *MJMLComponent) collectColumnClassesFromComponent(comp Component) {
 		}
 	case *components.MJGroupComponent:
 		// Register group's CSS class based on its width attribute
-		groupWidth := v.GetAttribute("width")
-		if groupWidth != nil && strings.HasSuffix(*groupWidth, "px") {
-			// Parse pixel width and register pixel-based class
-			var widthPx int
-			fmt.Sscanf(*groupWidth, "%dpx", &widthPx)
-			className := fmt.Sprintf("mj-column-px-%d", widthPx)
-			c.registerColumnClass(className, styles.NewPixelSize(float64(widthPx)))
-		} else {
-			// Default to percentage-based class
-			c.registerColumnClass("mj-column-per-100", styles.NewPercentSize(100))
-		}
+		c.registerColumnClass(v.GetWidthClass())
 
 		// Also recurse into children to collect column classes
 		for _, child := range v.Children {
